@@ -35,11 +35,11 @@ def opens():
 
 
 def seeds():
-    rounds = collections.OrderedDict([('1', 'r1'), ('b', 'r2'), ('c', 'r3'), ('d', 'r4'), ('e', 'r5')])
+    rounds = collections.OrderedDict([('1', 'r1'), ('b', 'r2'), ('c', 'r3'), ('d', 'r4'), ('e', 'r5'), ('f', 'r6')])
     st = {r: dict(n=0, first=0, now=0, replay=0, nfi=0) for r in rounds.values()}
     for d in sorted(glob.glob(os.path.join(HERE, 'seeded', 'C*'))):
         name = os.path.basename(d)
-        m = re.match(r'C\d\d-([bcde]?)(\d)$', name)
+        m = re.match(r'C\d\d-([bcdef]?)(\d)$', name)
         if not m or not os.path.exists(d + '/meta.json'):
             continue
         r = rounds[m.group(1) or '1']
